@@ -106,13 +106,14 @@ def _observed_call(obs, name, inner, args, kwargs):
     if capped:
         obs['cap_hits'].append([name, last['n']])
     obs['outer_capped'] = capped         # the call that finishes last is the outermost one
+    obs['last'][name] = capped           # how the most recent call of each solver ended
     return ret
 
 
 @contextlib.contextmanager
 def observing():
     prev = _state.get('observe')
-    rec = {'calls': 0, 'cap_hits': [], 'outer_capped': False}
+    rec = {'calls': 0, 'cap_hits': [], 'outer_capped': False, 'last': {}}
     _state['observe'] = rec
     try:
         yield rec
